@@ -90,32 +90,36 @@ def model_phase(rep):
     """all TLC work: returns the namespace tables and the emitted cases per family"""
     import concurrent.futures
     quick = rep.tier == 'quick'
-    exh = ['FamCore', 'FamMut', 'FamMut3', 'FamCor', 'FamRank3', 'FamGen', 'FamPerm', 'FamSummed']
-    if not quick:
-        exh = ['FamCore0', 'FamMut2', 'FamMut3', 'FamCor2', 'FamRank3', 'FamGen', 'FamPerm2', 'FamSummed3', 'FamThree', 'FamThreeV']
-    sim = ['FamSimV', 'FamSimM', 'FamSimC', 'FamSimVO'] if quick else ['FamSimV', 'FamSimW', 'FamSimM', 'FamSimC', 'FamSimVO', 'FamSimWO']
-    nsim = 100 if quick else 6000
+    # exhaustive runs: lists of families, one TLC process each
+    if quick:
+        exh = [['FamCore', 'FamMut', 'FamMut3', 'FamCor', 'FamRank3', 'FamGen', 'FamPerm', 'FamSummed']]
+        sim = ['FamSimV', 'FamSimM', 'FamSimC', 'FamSimVO']
+    else:
+        exh = [['FamCore0', 'FamMut2', 'FamMut3', 'FamCor2', 'FamRank3', 'FamGen'], ['FamPerm2', 'FamSummed3'], ['FamThree'], ['FamThreeV']]
+        sim = ['FamSimV', 'FamSimW', 'FamSimM', 'FamSimC', 'FamSimVO', 'FamSimWO']
+    nsim = 100 if quick else 3000
     mutants = ['trace-noshift'] if quick else sorted(SPEC_MUTANTS)
     tmo = 500 if quick else 2400
-    jobs = {
-        'exhaustive': lambda: run_tlc('c19-exh', exh, timeout=tmo),
-        'simulate': lambda: run_tlc('c19-sim', sim, emitmin=2, simulate=nsim, depth=24, seed=rep.seed + 19, timeout=tmo),
-        # vacuity guard: per-action coverage of the bare machine on the families that enable every action
-        'coverage': lambda: run_tlc('c19-cover', ['FamMut', 'FamMut3', 'FamCor'], bare=True, coverage=True, timeout=tmo),
-    }
+    jobs = {}
+    for i, fams in enumerate(exh):
+        jobs['exhaustive%d' % i] = (lambda i, fams: lambda: run_tlc('c19-exh%d' % i, fams, timeout=tmo))(i, fams)
+    jobs['simulate'] = lambda: run_tlc('c19-sim', sim, emitmin=2, simulate=nsim, depth=24, seed=rep.seed + 19, timeout=tmo)
+    # vacuity guard: per-action coverage of the bare machine on the families that enable every action
+    jobs['coverage'] = lambda: run_tlc('c19-cover', ['FamMut', 'FamMut3', 'FamCor'], bare=True, coverage=True, timeout=tmo)
     for bug in mutants:
         jobs['mutant:' + bug] = (lambda bug: lambda: run_tlc('c19-mutant-' + bug, [SPEC_MUTANTS[bug]], bug=bug, timeout=tmo))(bug)
-    with concurrent.futures.ThreadPoolExecutor(max_workers=4) as pool:
+    with concurrent.futures.ThreadPoolExecutor(max_workers=4 if quick else 6) as pool:
         futs = {k: pool.submit(f) for k, f in jobs.items()}
         results = {k: f.result() for k, f in futs.items()}
     rep.lap('tlc')
 
-    for k in ('exhaustive', 'simulate'):
+    runs = [('exhaustive%d' % i, fams) for i, fams in enumerate(exh)] + [('simulate', sim)]
+    for k, _ in runs:
         res = results[k]
         if res.violated:
             raise tlc.TLCError('C19 design spec: invariant {} violated ({} run): the documented reading and the algorithm model disagree; '
                                'this is a defect of the specification, not of nutils:\n{}'.format(res.violated, k, '\n'.join(l[:300] for l in res.error_trace[:30])))
-        rep.add_tlc(res, exhaustive=(k == 'exhaustive'))
+        rep.add_tlc(res, exhaustive=(k != 'simulate'))
     cov = results['coverage']
     rep.tlc_cmds.append(cov.cmd.split('tlc2.TLC ')[-1])
     for a, v in cov.coverage.items():
@@ -133,7 +137,7 @@ def model_phase(rep):
 
     tables = None
     byfam = collections.defaultdict(dict)
-    for k, names in (('exhaustive', exh), ('simulate', sim)):
+    for k, names in runs:
         for e in results[k].emitted:
             if 'vars' in e:
                 tables = e
